@@ -156,6 +156,24 @@ def check_cases(ctx, srcs):
             ctx.violate({"src": src, "out": ast.unparse(out)}, "second application changes the result")
         if not kw and not reference_ok(orig, out, ops):
             ctx.violate({"src": src, "out": ast.unparse(out)}, "result differs from Op(seq, args...) rewrite of exactly the operator calls")
+        # node objects that stand in several places / several queries grown from one base object (seed C17-w7-1): the
+        # result is the one obtained from trees in which every position is its own node
+        if nontrivial and ctx.rng.random() < 0.35:
+            try:
+                base = parse_expr(src)
+                q1 = ast.Call(func=ast.Attribute(value=base, attr="Where", ctx=ast.Load()), args=[parse_expr("lambda z: z")], keywords=[])
+                q2 = ast.Call(func=ast.Attribute(value=base, attr="Count", ctx=ast.Load()), args=[], keywords=[])
+                q3 = ast.Tuple(elts=[base, base], ctx=ast.Load())
+                wants = [enc(change_extension_functions_to_calls(copy.deepcopy(q))) for q in (q1, q2)]
+                want3 = enc(change_extension_functions_to_calls(ast.Tuple(elts=[parse_expr(src), parse_expr(src)], ctx=ast.Load())))
+                gots = [enc(change_extension_functions_to_calls(q)) for q in (q1, q2)]
+                got3 = enc(change_extension_functions_to_calls(ast.Tuple(elts=[b2 := parse_expr(src), b2], ctx=ast.Load())))
+                ctx.dist["shared node objects"] += 1
+                if gots != wants or got3 != want3:
+                    ctx.violate({"src": src, "shape": "base.Where(..), base.Count() and (base, base) built from ONE base node object"},
+                                "converting trees that share a node object gives another result than converting the same trees built from separate nodes")
+            except Unsupported:
+                pass
         reqs.append(("toCalls", [a_enc]))
         keep.append((src, a_enc, out_enc, kw))
     res = ctx.driver.batch(reqs)
